@@ -53,8 +53,19 @@ def _propagate_temps(fn):
     if any(isinstance(n, (ast.Global, ast.Nonlocal)) for n in nodes):
         return
     # names also touched in nested scopes are left alone
-    nested = {m.id for n in ast.walk(fn) if isinstance(n, (ast.Lambda, ast.ListComp, ast.SetComp, ast.DictComp, ast.GeneratorExp, ast.FunctionDef, ast.AsyncFunctionDef))
-              and n is not fn for m in ast.walk(n) if isinstance(m, ast.Name)}
+    nested = set()
+    for n in ast.walk(fn):
+        if n is fn or not isinstance(n, (ast.Lambda, ast.ListComp, ast.SetComp, ast.DictComp, ast.GeneratorExp, ast.FunctionDef, ast.AsyncFunctionDef)):
+            continue
+        bound = set()
+        if isinstance(n, (ast.Lambda, ast.FunctionDef, ast.AsyncFunctionDef)):
+            a_ = n.args
+            bound |= {x.arg for x in a_.posonlyargs + a_.args + a_.kwonlyargs}
+            bound |= {x.arg for x in (a_.vararg, a_.kwarg) if x is not None}
+        else:
+            bound |= {m.id for g in n.generators for m in ast.walk(g.target) if isinstance(m, ast.Name)}
+        bound |= {m.id for m in ast.walk(n) if isinstance(m, ast.Name) and isinstance(m.ctx, ast.Store)}
+        nested |= {m.id for m in ast.walk(n) if isinstance(m, ast.Name)} - bound      # names free in a nested scope
     stores = {}
     for n in nodes:
         if isinstance(n, ast.Name) and isinstance(n.ctx, (ast.Store, ast.Del)):
